@@ -39,7 +39,7 @@ def _iota(shape, dtype="int64"):
     n = 1
     for d in shape:
         n *= d
-    return {"t": dtype, "shape": list(shape), "data": list(range(n))}
+    return {"t": dtype, "shape": list(shape), "data": [float(v) for v in range(n)] if dtype.startswith("float") else list(range(n))}
 
 
 # witnesses of the _refuted theorems of Props/C08.v (same inputs), plus a few fixed in-domain instances
@@ -55,6 +55,22 @@ _WITNESSES = {
     "div_mode": [([{"t": "int64", "shape": [2], "data": [16777217, -7]}, {"t": "int64", "shape": [2], "data": [1, 2]}], {"rounding_mode": "floor"}),
                  ([{"t": "int64", "shape": [3], "data": [16777215, -16777215, 7]}, {"t": "int64", "shape": [3], "data": [-4096, 4097, -2]}], {"rounding_mode": "trunc"})],
     "cat": [([[_iota([0]), _iota([0])], 0], {}), ([[_iota([0]), _iota([2, 3]), _iota([2, 3])], 1], {})],
+    # second group (Props/C08_diag.v, C08_pool.v, ...)
+    "diagonal": [([_iota([3, 5]), -1, 0, 1], {}), ([_iota([5, 3]), -3, 0, 1], {}), ([_iota([3, 5]), 7, 0, 1], {}), ([_iota([2, 3, 5]), -1, -1, 1], {})],
+    "max_pool1d": [([_iota([1, 1, 3], "float32"), [2], [2], [1], [1], True], {}),
+                   ([_iota([1, 1, 1], "float32"), [2], [1], [1], [2], False], {})],                      # a window only in the padding
+    "max_pool2d": [([_iota([1, 4, 5], "float32"), [3], [], [0, 0], [1, 1], False], {}),
+                   ([_iota([1, 2, 6, 7], "float32"), 3, [1, 1], [1, 0], [1, 1], False], {}),
+                   ([_iota([1, 4, 5], "float32"), [2, 2], [2], [0, 0], [1, 1], False], {}),
+                   ([_iota([1, 4, 5], "float32"), [2, 2], [], [0, 0], [1], False], {}),
+                   ([_iota([2, 1, 1, 3], "float32"), [2, 3], [], [1, 0], [2, 1], True], {})],
+    "max_pool3d": [([_iota([1, 3, 4, 5], "float32"), [2], [], [0, 0, 0], [1, 1, 1], False], {}),
+                   ([_iota([1, 1, 2, 4], "float32"), [2, 2, 2], [2, 1, 3], [1, 0, 0], [2, 1, 1], False], {})],
+    "avg_pool2d": [([_iota([1, 4, 5], "float32"), [3], [], [0, 0], False, True], {}),
+                   ([_iota([1, 4, 5], "float32"), [2, 2], [2], [0, 0], False, True], {})],
+    "avg_pool3d": [([_iota([1, 3, 4, 5], "float32"), [2], [], [0, 0, 0], False, True], {})],
+    "constant_pad_nd": [([_iota([2, 3, 4]), [1, -1, 0, 2], 7], {}), ([_iota([2, 3]), [-1, -1, -1, -1], 7], {}), ([_iota([3]), [2, -1], 7], {})],
+    "unfold": [([_iota([]), 0, 0, 1], {}), ([_iota([2, 5, 3]), -2, 2, 2], {}), ([_iota([5]), 0, 2, 2], {})],
 }
 
 
@@ -139,6 +155,17 @@ def _finding_class(fam, a, k, want, got_desc):
         return "listed-skip:extent-not-1"
     if n == "flip" and not a[0]["shape"] and a[1]:
         return "zero-dim-tensor-with-dims"
+    if n == "unfold" and not a[0]["shape"] and a[2] == 0:
+        return "zero-dim-tensor-size-0"
+    if n.startswith(("max_pool", "avg_pool")):
+        e = int(n[-2])
+        named = ["kernel_size", "stride", "padding"] + (["dilation"] if n.startswith("max") else [])
+        for nm, v in zip(named, a[1:]):
+            if e > 1 and isinstance(v, list) and len(v) == 1 and nm != "padding":
+                return f"one-entry-{nm}-list"
+        w = np.asarray(want)
+        if n.startswith("max") and w.dtype.kind == "f" and np.isneginf(w).any() and got_desc.startswith("values"):
+            return "window-only-padding"
     return "other:" + got_desc.split()[0]
 
 
@@ -149,16 +176,17 @@ def families(ctx):
     t_imp = time.time()
     X.mods()
     from onnxscript import values as onnxscript_values
-    from onnxscript.function_libs.torch_lib.ops import core
+    from onnxscript.function_libs.torch_lib.ops import core, nn
     ctx.cover(import_s=round(time.time() - t_imp, 1))
+    mods_ = {"core": core, "nn": nn}
 
     fams = c08_fams.build()
-    cases, meta = [], []
+    cases, meta = {1: [], 2: []}, []
     stats = {}
     for fam in fams:
         n = fam.quick if ctx.tier == "quick" else fam.thorough
         st = stats.setdefault(fam.name, {"n": 0, "ok": 0, "torch_refuses": 0, "no_kernel": 0, "listed_skip": 0, "property_fails": 0})
-        fn = getattr(core, fam.fn)
+        fn = getattr(mods_[fam.mod], fam.fn)
         # the witnesses of the `_refuted` theorems (and instances of the Examples) are replayed on the real code first
         for args, kwargs in itertools.chain(_WITNESSES.get(fam.name, []), fam.gen(ctx.rng, n)):
             if fam.name == "amax" and args[1] is None and not isinstance(fn, onnxscript_values.TracedOnnxFunction):
@@ -195,23 +223,31 @@ def families(ctx):
             except Exception as e:                # an output of unexpected structure: cannot even be printed
                 call, obs, wres = fam.call(args, kwargs), "RErr", "RNone"
                 desc = desc or f"structure ({type(e).__name__})"
+            if fam.chk == 2:
+                call = call.replace("{FIXED}", "true" if _is_fixed(fam.name, sk, args) else "false")
+                obs, wres = {"RErr": "R2Err", "RNone": "R2None"}.get(obs, obs), {"RErr": "R2Err", "RNone": "R2None"}.get(wres, wres)
             ctx.case((fam.name,) + tuple(fam.cls(args, kwargs)))
-            fixed = _is_fixed(fam.name, sk)
-            cases.append(f"({'true' if fixed else 'false'}, {call}, {_skel_lit(sk)}, {obs}, {wres})")
-            meta.append((fam, args, kwargs, desc, err, want, got, sk))
+            fixed = _is_fixed(fam.name, sk, args)
+            if fam.chk == 1:
+                cases[1].append(f"({'true' if fixed else 'false'}, {call}, {_skel_lit(sk)}, {obs}, {wres})")
+            else:
+                cases[2].append(f"({call}, {_skel_lit(sk)}, {obs}, {wres})")
+            meta.append((fam, args, kwargs, desc, err, want, got, sk, (fam.chk, len(cases[fam.chk]) - 1)))
             if len(ctx.samples) < 4 and fam.name in ("flatten", "roll", "slice", "narrow") and not desc:
                 ctx.sample({"family": fam.name, "args": args, "kwargs": kwargs, "skeleton": sk,
                             "onnxruntime": X.from_numpy(got), "torch": X.from_numpy(want)})
 
     # ---- the model, inside Coq
     shard = 400
-    bodies = []
-    for i in range(0, len(cases), shard):
-        bodies.append("Local Open Scope string_scope.\nLocal Open Scope Z_scope.\n"
-                      "Definition cases : list case := [\n" + ";\n".join(cases[i:i + shard]) + "].\n"
-                      "Eval vm_compute in (disagreeing cases).")
-    verdict = {}
-    res = _coq_shards(ctx, ["OV.Torch.Onnx", "OV.Torch.Aten", "OV.Torch.Check"], bodies)
+    bodies, where = [], []
+    for chk, ty, fn_ in ((1, "case", "disagreeing"), (2, "case2", "disagreeing2")):
+        for i in range(0, len(cases[chk]), shard):
+            bodies.append("Local Open Scope string_scope.\nLocal Open Scope Z_scope.\n"
+                          f"Definition cases : list {ty} := [\n" + ";\n".join(cases[chk][i:i + shard]) + "].\n"
+                          f"Eval vm_compute in ({fn_} cases).")
+            where.append((chk, i))
+    verdict_at = {}
+    res = _coq_shards(ctx, ["OV.Torch.Onnx", "OV.Torch.Aten", "OV.Torch.Check", "OV.Torch.Spec2", "OV.Torch.Aten2", "OV.Torch.Check2"], bodies)
     model_ok = True
     for si, (ok, vals, raw) in enumerate(res):
         if not ok or not vals:
@@ -219,13 +255,21 @@ def families(ctx):
             model_ok = False
             continue
         flat = common.parse_nat_list(vals[0])
+        chk, base = where[si]
         for j in range(0, len(flat), 2):
-            verdict[si * shard + flat[j]] = flat[j + 1]
+            verdict_at[(chk, base + flat[j])] = flat[j + 1]
+    verdict = {i: verdict_at[m[8]] for i, m in enumerate(meta) if m[8] in verdict_at}
+    meta = [m[:8] for m in meta]
 
     n_dis = n_perm = n_dev = 0
+    floor_hits = {}
     for i, (fam, args, kwargs, desc, err, want, got, sk) in enumerate(meta):
         st = stats[fam.name]
         v = verdict.get(i, 0)
+        if not desc and v == 0:
+            for label, (pred, _) in fam.floors.items():
+                if pred(args, kwargs):
+                    floor_hits[(fam.name, label)] = floor_hits.get((fam.name, label), 0) + 1
         replay = {"family": fam.name, "function": fam.fn, "args": args, "kwargs": kwargs, "skeleton": sk,
                   "onnxruntime": "error: " + err[:400] if err else X.from_numpy(got), "torch": X.from_numpy(want),
                   "coq_verdict": v}
@@ -258,6 +302,37 @@ def families(ctx):
     for fam in fams:
         if stats[fam.name]["ok"] < 10:
             ctx.tie_broken("harness", f"generator-degenerate:{fam.name}", json.dumps(stats[fam.name]))
+        for label, (_, floor) in fam.floors.items():           # input classes every run must have exercised (and found agreeing)
+            if floor_hits.get((fam.name, label), 0) < floor:
+                ctx.tie_broken("harness", f"generator-floor:{fam.name}:{label}",
+                               f"{floor_hits.get((fam.name, label), 0)} agreeing cases, floor {floor}; {json.dumps(stats[fam.name])}")
+    ctx.cover(generator_floors={f"{k[0]}: {k[1]}": v for k, v in sorted(floor_hits.items())})
+
+
+# replayed on the real code on every run, direct oracle only (data the integer model cannot carry): (function, args, kwargs, torch reference, finding class)
+def direct_witnesses(ctx):
+    from harness import c08_exec as X
+    torch = X.mods()["torch"]
+    from onnxscript.function_libs.torch_lib.ops import core
+    inf = float("inf")
+    W = [("aten_diagonal", [{"t": "float32", "shape": [2, 2], "data": [1.0, inf, 3.0, 4.0]}, 0, 0, 1], {},
+          lambda x, o, a, b: torch.diagonal(x, o, a, b), "non-finite-off-diagonal-element"),
+         ("aten_diagonal", [{"t": "float32", "shape": [2, 3], "data": [1.0, 2.0, 3.0, float("nan"), 5.0, 6.0]}, 1, 0, 1], {},
+          lambda x, o, a, b: torch.diagonal(x, o, a, b), "non-finite-off-diagonal-element")]
+    for fname, args, kwargs, ref, cls in W:
+        targs = X.to_torch(args)
+        want = _np(ref(*targs, **kwargs))
+        try:
+            tr = X.trace(getattr(core, fname), targs, kwargs)
+            got = X.run_ort(tr)[0]
+            desc = _same(got, want)
+        except Exception as e:
+            got, desc = None, f"error {type(e).__name__}: {e}"[:300]
+        ctx.case(("direct-witness", fname, cls))
+        if desc:
+            ctx.violation(f"C08:{fname}:{cls}", f"{fname}{_short(args, kwargs)}: traced graph on onnxruntime gives {desc.split()[0]}, torch eager differs",
+                          {"function": fname, "args": args, "kwargs": kwargs, "onnxruntime": X.from_numpy(got) if got is not None else desc,
+                           "torch": X.from_numpy(want)})
 
 
 def _coq_shards(ctx, requires, bodies, par=2, timeout=900):
@@ -280,8 +355,18 @@ def _coq_shards(ctx, requires, bodies, par=2, timeout=900):
         return list(ex.map(one, files))
 
 
-def _is_fixed(name, sk):
+def _is_fixed(name, sk, args=None):
+    """which variant of the code produced the skeleton: the pinned one or the one repaired by a proposed fix"""
     ops = [o for o, _ in sk]
+    if name == "diagonal":                  # proposed_fixes/C08_diagonal_where_mask.diff
+        return "Where" in ops
+    if name.startswith(("max_pool", "avg_pool")):   # proposed_fixes/C08_pool_expand_one_entry_lists.diff: one-entry lists arrive expanded
+        e = int(name[-2])
+        for o, ints in sk:
+            if o in ("MaxPool", "AveragePool"):
+                ker = ints[2]
+                return e > 1 and len(ker) == e and any(isinstance(v, list) and len(v) == 1 for v in args[1:3] + (args[4:5] if o == "MaxPool" else []))
+        return False
     if name in ("reshape", "view_copy"):
         return any(o == "Reshape" and ints and ints[0] == [1] for o, ints in sk)
     if name == "amax":                      # trace_only variant (ReduceMax emitted directly) vs script function (one call node)
@@ -400,8 +485,9 @@ def run(ctx):
     ctx.trust("onnxruntime 1.30 CPU (ORT_DISABLE_ALL) and torch 2.14 eager as oracles; torch.onnx exporter OpRecorder for tracing")
     sw = sweep_start(ctx)                    # runs beside the proof re-check and the modelled families
     try:
-        ctx.check_props()
+        ctx.check_props(extra_files=["Torch/Check.v", "Torch/Check2.v"])      # the correspondence checkers are (re)built with the theorems
         families(ctx)
+        direct_witnesses(ctx)
     finally:
         sweep_finish(ctx, sw)
     ctx.cover(not_covered=[
